@@ -1263,6 +1263,33 @@ func (r *c13Run) afterDone(t *c13Thread, ghost map[int]int) {
 				}
 			}
 		}
+	case "removeInformer", "cacheRead":
+		// The tracking cache's `active` set is what StartWatches decides on: a kind that stays
+		// active after its informer was removed is never restarted (and would show under the
+		// known signature of D13); a kind that is not active after a read through the cache is
+		// restarted although its informer and handlers are alive (a second handler). The call
+		// ran alone: nothing else touched the cache since.
+		active := false
+		for _, gvk := range r.tinfs.InformerTrackingCache.ActiveInformers() {
+			if c13KindOf(gvk) == op.G {
+				active = true
+			}
+		}
+		r.mu.Lock()
+		_, live := r.infs[op.G]
+		r.mu.Unlock()
+		if op.Op == "removeInformer" && t.res == "ok" {
+			if active {
+				r.mon("C13:removed-informer-still-active", fmt.Sprintf("RemoveInformer(kind %d = %s) returned nil and ActiveInformers still lists the kind: the next StartWatches will not restart its watches", op.G, c13GVK(op.G)))
+			}
+			if live {
+				r.mon("C13:removed-informer-still-live", fmt.Sprintf("RemoveInformer(kind %d = %s) returned nil and the informer still exists in the wrapped cache", op.G, c13GVK(op.G)))
+			}
+		}
+		if op.Op == "cacheRead" && !active {
+			// (also after a failing read: cache.go marks the kind before it calls the wrapped cache)
+			r.mon("C13:read-informer-not-active", fmt.Sprintf("%s of kind %d = %s through the tracking cache (result %s) and ActiveInformers does not list the kind", op.Via, op.G, c13GVK(op.G), t.res))
+		}
 	case "gc":
 		if t.res != "ok" || t.faults > 0 {
 			return
